@@ -89,9 +89,14 @@ pub fn plan(w: &mut World, p: &Profile, prop: &str) -> Plan {
         _ => Some(1 + w.ch.draw("group.capn", 5) as usize),
     };
     let ops = 2 + w.ch.draw("group.ops", 14);
+    // construction through FromIterator (keys unknown to the harness) in one run out of six
+    let from_iter = if w.ch.draw("group.from_iter", 6) == 5 { w.ch.draw("group.from_iter.n", 5) as usize } else { 0 };
+    // one run in ten starts with a burst of short-lived members inserted before the first poll, so that many
+    // members finish in the same poll (the deferred key-removal queue of StreamGroup is a SmallVec of 10)
+    let burst = if w.ch.draw("group.burst", 7) == 6 { 9 + w.ch.draw("group.burst.n", 10) as usize } else { 0 };
     let cancel_at = if p.allow_cancel && w.ch.draw("cancel", 5) == 4 { Some(w.ch.draw("cancel.at", 8)) } else { None };
     Plan {
-        shape: Shape::Group { stream, keyed, cap, ops },
+        shape: Shape::Group { stream, keyed, cap, ops, from_iter, burst },
         leaves: Vec::new(),
         cancel_at,
         max_yields: u32::MAX,
@@ -221,18 +226,43 @@ group_root!(
     |_g, _nodes| {}
 );
 
+/// Members of the initial burst: finish on their first or second poll.
+fn burst_member(w: &mut World) -> NodeId {
+    use crate::world::{Step, Terminal, Wake};
+    let stream = w.model.group.stream;
+    let mut script = Vec::new();
+    match w.ch.draw("burst.kind", 6) {
+        0 => script.push(Step::Pend(Wake::Later(0))),
+        1 if stream => script.push(Step::Item),
+        _ => {}
+    }
+    script.push(if stream { Step::End } else { Step::Ready { err: false } });
+    w.new_leaf(ROOT, script, Terminal::Finished, stream, false)
+}
+
 pub fn build(plan: &Plan) -> Box<dyn Root> {
-    let Shape::Group { stream, keyed, cap, ops } = plan.shape else { unreachable!() };
+    let Shape::Group { stream, keyed, cap, ops, from_iter, burst } = plan.shape else { unreachable!() };
     with(|w| {
         let root = w.new_node(NO_NODE, if stream { Family::StreamGroup } else { Family::FutGroup });
         debug_assert_eq!(root, ROOT);
         w.model.group = GroupModel { active: true, stream, keyed, ops_left: ops, ..GroupModel::default() };
         w.emit(Ev::RootCreated { fam: w.node(ROOT).fam });
     });
-    if stream {
-        let g = match cap {
-            None => SG::new(),
-            Some(c) => SG::with_capacity(c),
+    // members handed over through FromIterator: their keys are unknown to the harness
+    let init: Vec<NodeId> = with(|w| {
+        let v: Vec<NodeId> = (0..from_iter).map(|_| new_member(w)).collect();
+        w.model.group.unknown.extend(v.iter().copied());
+        w.in_group_op = true;
+        v
+    });
+    let mut root: Box<dyn Root> = if stream {
+        let g = if from_iter > 0 {
+            init.iter().map(|&n| SimStream::new(n)).collect::<SG>()
+        } else {
+            match cap {
+                None => SG::new(),
+                Some(c) => SG::with_capacity(c),
+            }
         };
         with(|w| w.model.group.last_cap = g.capacity());
         if keyed {
@@ -241,9 +271,13 @@ pub fn build(plan: &Plan) -> Box<dyn Root> {
             Box::new(StreamGroupRoot::Plain(g, Vec::new()))
         }
     } else {
-        let g = match cap {
-            None => FG::new(),
-            Some(c) => FG::with_capacity(c),
+        let g = if from_iter > 0 {
+            init.iter().map(|&n| SimFut::<Val>::new(n)).collect::<FG>()
+        } else {
+            match cap {
+                None => FG::new(),
+                Some(c) => FG::with_capacity(c),
+            }
         };
         with(|w| w.model.group.last_cap = g.capacity());
         if keyed {
@@ -251,7 +285,40 @@ pub fn build(plan: &Plan) -> Box<dyn Root> {
         } else {
             Box::new(FutGroupRoot::Plain(g, Vec::new()))
         }
+    };
+    with(|w| {
+        w.in_group_op = false;
+        for &n in &init {
+            if w.node(n).polls > 0 {
+                let o = pre(w, "insert");
+                w.flag(o, || format!("member n{n} was polled during FromIterator::from_iter"));
+            }
+        }
+    });
+    // the initial burst goes through the ordinary insert path (keys known)
+    for _ in 0..burst {
+        let node = with(|w| {
+            w.in_group_op = true;
+            w.stats.group_ops += 1;
+            burst_member(w)
+        });
+        let key = root.group().unwrap().insert(node);
+        with(|w| {
+            w.emit(Ev::Group(GroupOp::Insert { node, key }));
+            w.node_mut(node).key = Some(key);
+            if let Some(&other) = w.model.group.live.get(&key) {
+                let o = pre(w, "insert");
+                w.flag(o, || format!("insert returned key {key}, which is still held by live member n{other}"));
+            }
+            w.model.group.live.insert(key, node);
+            w.model.group.see(key);
+            w.in_group_op = false;
+        });
     }
+    if from_iter > 0 || burst > 0 {
+        observe(root.as_mut());
+    }
+    root
 }
 
 // ------------------------------------------------------------------ operations
@@ -471,6 +538,9 @@ pub fn on_root_poll_end(w: &mut World, out: &Out) {
     }
     if ended.len() >= 2 {
         w.stats.p_multi_end += 1;
+    }
+    if ended.len() > 10 {
+        w.stats.p_multi_end_gt10 += 1;
     }
     for &m in &ended {
         w.model.group.forget(m);
